@@ -566,7 +566,9 @@ func c20layout(tier string) (seq, conc int) {
 
 func runC20(c *fw.Ctx) {
 	seq, _ := c20layout(c.Tier)
-	if c.Idx < seq {
+	if c.Idx < seq && c.Idx%250 == 9 {
+		c20initLogging(c)
+	} else if c.Idx < seq {
 		c20sequential(c)
 	} else {
 		c20concurrent(c)
@@ -587,7 +589,7 @@ func init() {
 			"made of written ids, per-writer newest-first. Race reports are violations. non-trivial = history with at least one derived logger (sequential) / every concurrent run",
 		Cases: func(tier string) int { s, cc := c20layout(tier); return s + cc },
 		Run:   runC20,
-		Floors: map[string]int64{"sequential_histories": 4500, "histories_on_adjustable_level": 2000, "histories_on_a_coarse_clock": 1000, "derivations_with_a_field_that_logs": 300, "derivations_that_failed_inside_the_encoder": 300, "histories_with_the_buffer_beside_a_verbose_core": 1000, "level_changes": 20000, "writes_below_the_level": 100000, "snapshots_compared_in_detail": 20000, "held_snapshots_rechecked": 100000, "read_gap:capacity": 300, "read_gap:2xcapacity": 300, "read_gap:1": 200, "snapshots_compared": 10000, "derived_loggers": 5000, "histories_above_capacity": 1500, "concurrent_runs": 200, "concurrent_runs_above_capacity": 50,
+		Floors: map[string]int64{"sequential_histories": 4400, "histories_on_adjustable_level": 2000, "histories_on_a_coarse_clock": 1000, "derivations_with_a_field_that_logs": 300, "derivations_that_failed_inside_the_encoder": 300, "histories_through_InitLogging_and_the_handlers": 15, "handler_pages_compared": 90, "histories_with_the_buffer_beside_a_verbose_core": 1000, "level_changes": 20000, "writes_below_the_level": 100000, "snapshots_compared_in_detail": 20000, "held_snapshots_rechecked": 100000, "read_gap:capacity": 300, "read_gap:2xcapacity": 300, "read_gap:1": 200, "snapshots_compared": 10000, "derived_loggers": 5000, "histories_above_capacity": 1500, "concurrent_runs": 200, "concurrent_runs_above_capacity": 50,
 			"concurrent_runs_with_snapshots": 90, "entries_written": 3000000},
 		Assumptions: []string{"capacity is read from the exported constant logging.BufferSize", "a case in which writers or GetLogs/WriteLogs do not return for 120 s (normal: milliseconds) is reported as a violation: the buffer no longer returns its entries", "race freedom = no report from the Go race detector on the interleavings that occurred"},
 	})
